@@ -314,6 +314,11 @@ def nanmean(
     scalar or ndarray
         Mean of values
     """
+    arr = np.asarray(arr)
+    if arr.dtype.kind in "iu":
+        # as NumPy: integers are averaged in float64 (the int64 total of a handful of
+        # epoch-nanosecond values already wraps around)
+        arr = arr.astype(np.float64)
     sum = nansum(**locals())
     n = count(arr, axis=axis)
     if n == 0:
